@@ -104,6 +104,8 @@ def spaces(tier):
             out.append(cs.db_space(n, cs.COMBOS[n % 2], 2, cli=True))
         out.append(cs.sequence_space(4))
         out.append(cs.sequence_space(4, dataset=3))
+    for combo in cs.LONGSTEP:
+        out.append(cs.db_space(3 if tier == 'quick' else 4, combo, 1))
     return out
 
 
